@@ -129,15 +129,29 @@ def d4(ctx, prog):
     run = prog.resolve_method(acc, 'run')
     # (a) the thread body stores any Exception
     ok = False
+    risky = None
     for t in ast.walk(run.node):
         if isinstance(t, ast.Try):
             for h in t.handlers:
                 names = {norm(x) for x in (h.type.elts if isinstance(h.type, ast.Tuple) else [h.type])} if h.type is not None else {'BaseException'}
                 if names & {'Exception', 'BaseException'} and h.name:
-                    if any(isinstance(s, ast.Assign) and self_attr(s.targets[0]) == '_exception' and norm(s.value) == h.name for s in h.body):
+                    stores = [i for i, s in enumerate(h.body) if isinstance(s, ast.Assign) and self_attr(s.targets[0]) == '_exception' and norm(s.value) == h.name]
+                    if stores:
                         # the try must cover the batch loop
                         if any(isinstance(x, ast.For) for x in t.body):
                             ok = True
+                        # nothing that can itself raise may precede the store: formatting / calling with instance state evaluates
+                        # arbitrary __str__ / property code, and an exception there escapes with the original one lost
+                        for s in h.body[:stores[0]]:
+                            for n in ast.walk(s):
+                                if isinstance(n, ast.FormattedValue) and not (isinstance(n.value, ast.Name) and n.value.id == h.name):
+                                    risky = (s, norm(n.value))
+                                elif isinstance(n, ast.Call) and any(not isinstance(a, (ast.Constant, ast.JoinedStr)) and not (isinstance(a, ast.Name) and a.id == h.name)
+                                                                     for a in n.args):
+                                    risky = (s, norm(n)[:40])
+    ctx.check(risky is None, 'C09-D4', f'{run.key}::store first', f'before the exception is stored the handler evaluates `{risky[1] if risky else ""}` '
+              f'(`{norm(risky[0])[:70] if risky else ""}`): if that raises too (a broken trace set printing itself), the original failure is lost and join() reports success',
+              'nothing that can raise precedes the store of the caught exception', run.where(risky[0]) if risky else run.where())
     ctx.check(ok, 'C09-D4', f'{run.key}::store exception', 'the thread body does not store a caught Exception covering the batch loop in self._exception: a failure would be lost',
               'any Exception raised while accumulating is stored in self._exception', run.where())
     # (b) join re-raises
@@ -204,7 +218,49 @@ def d4(ctx, prog):
     ctx.count('fault_paths', n_fault)
 
 
+def d5(ctx, prog):
+    """stop-request typestate: every run() clears the flag before the batch loop; nothing sets it again before the loop"""
+    acc = prog.need_class(TT, 'TTestThreadAccumulator')
+    run = prog.resolve_method(acc, 'run')
+    stop = prog.resolve_method(acc, 'stop')
+    flags = {self_attr(t) for t, s, how in kernels.stores(stop.node) if self_attr(t)} if stop else set()
+    if len(flags) != 1:
+        ctx.undecided('C09-D5', f'{acc.key}::stop flag', 'stop() does not set exactly one flag attribute', acc.mod.relpath)
+        return
+    flag = flags.pop()
+
+    def keep(ev, fl):
+        return (ev[0] == 'store' and ev[1] == flag) or (ev[0] == 'call' and ev[1].endswith('.batches')) or ev[0] == 'raise'
+    fl = flow.Flow(prog, acc, keep=keep, inline=lambda c, call, caller: False)
+    paths = fl.run(run)
+    bad = 0
+    n = 0
+    for p in paths:
+        evs = p.events
+        idx = next((i for i, e in enumerate(evs) if e[0] == 'call'), None)
+        if idx is None:
+            continue
+        n += 1
+        clears = [e for e in evs[:idx] if e[0] == 'store']
+        node = fl.node_of(clears[-1]) if clears else None
+        if not (node is not None and isinstance(node, ast.Assign) and isinstance(node.value, ast.Constant) and node.value.value is False):
+            bad += 1
+    key = f'{run.key}::stop flag cleared'
+    if n == 0:
+        ctx.undecided('C09-D5', key, 'no path reaching the batch loop found', run.where())
+    elif bad:
+        ctx.fail('C09-D5', key, f'on {bad} of {n} paths the batch loop is entered without `{flag}` having been cleared in this run: a stop request left by an earlier '
+                                f'run (TTestAnalysis.run calls stop() in its finally block) silently truncates the next accumulation', run.where())
+    else:
+        ctx.ok('C09-D5', key, f'`{flag}` is cleared before the batch loop on each of {n} paths', run.where())
+    # the analysis does call stop() after every run: the clearing above is what makes repeated runs accumulate everything
+    arun = prog.resolve_method(prog.need_class(TT, 'TTestAnalysis'), 'run')
+    calls_stop = any(isinstance(c, ast.Call) and isinstance(c.func, ast.Attribute) and c.func.attr == 'stop' for c in ast.walk(arun.node))
+    ctx.note(f'TTestAnalysis.run calls stop() on its accumulators: {calls_stop}')
+
+
 def run(ctx, prog):
+    ctx.rule('C09-D5', 'stop-request typestate: the accumulator clears its stop flag on every path before entering the batch loop')
     ctx.rule('C09-D1', 'the two accumulation threads share no writable object: distinct accumulators, stores only to self/locals, staticmethod kernel bound to instance arrays, shared container code writes no global/class state')
     ctx.rule('C09-D2', 'the kernel\'s prange stores are disjoint and it casts to the precision before reducing')
     ctx.rule('C09-D3', 'accumulators additive, first-call initialisation only, count += batch length once (C01 rules on the t-test accumulator)')
@@ -229,5 +285,6 @@ def run(ctx, prog):
         o.rule = 'C09-D3'
         ctx._add(o)
     d4(ctx, prog)
+    d5(ctx, prog)
     ctx.floor('prange loops in the t-test kernel', n, 1)
     ctx.floor('C01 obligations on the t-test accumulator', len(sub.obs), 6)
